@@ -685,6 +685,23 @@ func (e *Env) call(n *ECall) (tv, error) {
 			r = fmt.Sprintf("(sarr %s)", r)
 		}
 		return tv{t: fmt.Sprintf("(>= (rb %s) %s)", r, fr), ty: stBool}, nil
+	case "sameobj":
+		// sameobj(a, b): the two pointers / slices point into the same allocated object
+		as, err := args()
+		if err != nil {
+			return tv{}, err
+		}
+		if len(as) != 2 {
+			return tv{}, fmt.Errorf("sameobj takes two arguments")
+		}
+		rs := make([]string, 2)
+		for i := range as {
+			rs[i] = as[i].t
+			if e.sortOfS(as[i].ty) == "Slice" {
+				rs[i] = fmt.Sprintf("(sarr %s)", rs[i])
+			}
+		}
+		return tv{t: fmt.Sprintf("(= (rb %s) (rb %s))", rs[0], rs[1]), ty: stBool}, nil
 	case "min", "max":
 		as, err := args()
 		if err != nil {
